@@ -33,6 +33,20 @@ let rec pr (t : tok) : unit =
 
 let flush_line () = Buffer.add_char buf '\n'; print_string (Buffer.contents buf); Buffer.clear buf
 
+let z_of_int (i : int) : z = if i = 0 then Z0 else if i > 0 then Zpos (pos_of_int i) else Zneg (pos_of_int (- i))
+(* the public scaling functions of messages::navigation on a raw value *)
+let scaled (which : string) (raw : int) : fexpr option =
+  match which with
+  | "lon" -> parse_longitude (z_of_int raw)
+  | "lat" -> parse_latitude (z_of_int raw)
+  | "sog" -> parse_speed_over_ground (n_of_int raw)
+  | "cog" -> parse_cog (n_of_int raw)
+  | _ -> failwith "bad F case"
+let pr_optf (v : fexpr option) : unit =
+  match v with
+  | None -> Buffer.add_string buf "(n)"
+  | Some e -> Buffer.add_string buf "(n f"; Buffer.add_string buf (string_of_int (int_of_z (fbits e))); Buffer.add_char buf ')'
+
 let () =
   let c = match Sys.argv.(1) with "std" -> Std | "alloc" -> Alloc | "none" -> NoAlloc | _ -> failwith "cfg" in
   let q = match Sys.argv.(2) with "asis" -> quirks_asis | "off" -> quirks_off
@@ -103,6 +117,18 @@ let () =
           done
         done;
         Buffer.add_string buf (Printf.sprintf "B %08x%08x" !h1 !h2); flush_line ()
+      | ["F"; which; lo; count] ->
+        let lo = int_of_string lo and count = int_of_string count in
+        let h1 = ref 2166136261 and h2 = ref 0x9747b28c in
+        for raw = lo to lo + count - 1 do
+          pr_optf (scaled which raw); Buffer.add_char buf '\n';
+          String.iter (fun ch ->
+            h1 := ((!h1 lxor Char.code ch) * 16777619) land 0xFFFFFFFF;
+            h2 := ((!h2 lxor Char.code ch) * 709607) land 0xFFFFFFFF) (Buffer.contents buf);
+          Buffer.clear buf
+        done;
+        Buffer.add_string buf (Printf.sprintf "F %08x%08x" !h1 !h2); flush_line ()
+      | ["f"; which; raw] -> pr_optf (scaled which (int_of_string raw)); flush_line ()
       | [""] | [] -> ()
       | _ -> failwith ("bad case line: " ^ line)
     done
